@@ -140,12 +140,15 @@ def latestText (h : List Rec) : Bytes :=
   | some r => r.text
   | none => []
 
+/-- one step of `Composition::GetCommitText` on the view: (text so far, `end`) -/
+def cstep (input : Bytes) (acc : Bytes × Nat) (g : SegV) : Bytes × Nat :=
+  match g.cand with
+  | some (_, tx, e) => (acc.1 ++ tx, e)
+  | none => (acc.1 ++ substr input g.start g.stop, g.stop)
+
 /-- `Composition::GetCommitText` for a composition without `phony` segments, on the same view -/
 def commitText (segs : List SegV) (input : Bytes) : Bytes :=
-  let r := segs.foldl (fun (acc : Bytes × Nat) g =>
-    match g.cand with
-    | some (_, tx, e) => (acc.1 ++ tx, e)
-    | none => (acc.1 ++ substr input g.start g.stop, g.stop)) ([], 0)
+  let r := segs.foldl (cstep input) ([], 0)
   if input.length > r.2 then r.1 ++ input.drop r.2 else r.1
 
 /-- the texts of the records, concatenated -/
